@@ -28,14 +28,16 @@ CONSTANTS
     T, F,          \* topic of the stream under test, foreign topic
     AuthorOrder,   \* all authors as a sequence: iteration order of the BTreeMaps (key byte order)
     RemoteBodies,  \* RemoteBodies[i] = "remote operation with seq i-1 has a body"
+    RemotePrunes,  \* RemotePrunes[i] = "remote operation with seq i-1 carries the prune flag"
     Policies,      \* subset of {"auto", "explicit"} a node may be started with
     ResetHeights   \* heights a StreamFrom::Cursor(c) reset may name (bounds the model only)
 
 Authors == {Me} \cup Remotes
 NoneH == -1
 
-NoOp == [a |-> "-", tp |-> "-", seq |-> -1, body |-> FALSE]
-MkOp(a, tp, s, b) == [a |-> a, tp |-> tp, seq |-> s, body |-> b]
+NoOp == [a |-> "-", tp |-> "-", seq |-> -1, body |-> FALSE, prune |-> FALSE]
+MkOpP(a, tp, s, b, p) == [a |-> a, tp |-> tp, seq |-> s, body |-> b, prune |-> p]
+MkOp(a, tp, s, b) == MkOpP(a, tp, s, b, FALSE)
 EmptyCursor == [a \in Authors |-> NoneH]
 
 VARIABLES
@@ -62,12 +64,12 @@ VARIABLES
     ackd,       \* operations whose ack returned Ok since the last reset
     lastRes,    \* result of the last completed application ack call
     (* ---- budgets (bound the behaviours, see MC) ---- *)
-    nPub, nImp, nAck, nForeign, nReset, crashes
+    nPub, nPrune, nImp, nAck, nForeign, nReset, crashes
 
 pvars == <<stored, assoc, cursor>>
 vvars == <<up, policy, pub, pubq, st, rq, ackLock, txHolder, chan, app>>
 hvars == <<expect, replayed, sent, base, ackd, lastRes>>
-bvars == <<nPub, nImp, nAck, nForeign, nReset, crashes>>
+bvars == <<nPub, nPrune, nImp, nAck, nForeign, nReset, crashes>>
 vars == <<pvars, vvars, hvars, bvars>>
 
 ---------------------------------------------------------------------------
@@ -121,7 +123,7 @@ Init ==
     /\ up = FALSE /\ policy = "auto" /\ pub = IdlePub /\ pubq = <<>> /\ st = IdleSt /\ rq = <<>>
     /\ ackLock = "none" /\ txHolder = "none" /\ chan = <<>> /\ app = IdleApp
     /\ expect = {} /\ replayed = {} /\ sent = {} /\ base = EmptyCursor /\ ackd = {} /\ lastRes = "none"
-    /\ nPub = 0 /\ nImp = 0 /\ nAck = 0 /\ nForeign = 0 /\ nReset = 0 /\ crashes = 0
+    /\ nPub = 0 /\ nPrune = 0 /\ nImp = 0 /\ nAck = 0 /\ nForeign = 0 /\ nReset = 0 /\ crashes = 0
 
 ---------------------------------------------------------------------------
 (* Opening the stream: Node::stream_from -> processed_stream               *)
@@ -144,7 +146,7 @@ OpenWith(p, c) ==
                                                                                        \* [process_operation.start]
     /\ pub' = IdlePub /\ pubq' = <<>> /\ ackLock' = "none" /\ txHolder' = "none" /\ app' = IdleApp
     /\ lastRes' = "none"
-    /\ UNCHANGED <<stored, assoc, nPub, nImp, nAck, nForeign, crashes>>
+    /\ UNCHANGED <<stored, assoc, nPub, nPrune, nImp, nAck, nForeign, crashes>>
 
 \* StreamFrom::Frontier (acked.rs:101)
 Open(p) ==
@@ -168,11 +170,15 @@ OpenFromCursor(p, c) ==
 (* Publisher: StreamPublisher::publish_inner (stream.rs:640-677)           *)
 
 \* forge.rs:92-110: begin tx (store permit), read latest entry, sign.       [-> forge.tx.before_commit]
-ForgeBegin ==
+\* publish(m): body, no prune flag; prune(Some(m)) / prune(None): prune flag, body optional
+\* (stream.rs:597-614).
+ForgeBegin(pr, b) ==
     /\ up /\ pub.pc = "idle" /\ txHolder = "none"
+    /\ (~b => pr)
     /\ txHolder' = "pub"
-    /\ pub' = [pc |-> "intx", op |-> MkOp(Me, T, Height(stored, Me, T) + 1, TRUE)]
+    /\ pub' = [pc |-> "intx", op |-> MkOpP(Me, T, Height(stored, Me, T) + 1, b, pr)]
     /\ nPub' = nPub + 1
+    /\ nPrune' = IF pr THEN nPrune + 1 ELSE nPrune
     /\ UNCHANGED <<pvars, up, policy, pubq, st, rq, ackLock, chan, app, hvars, nImp, nAck, nForeign, nReset, crashes>>
 
 \* forge.rs:128-141: associate + insert_operation + commit, ONE transaction.  [-> publish.after_forge]
@@ -197,7 +203,7 @@ ForgeForeign ==
     /\ stored' = stored \cup {MkOp(Me, F, Height(stored, Me, F) + 1, TRUE)}
     /\ assoc' = assoc \cup {<<F, Me>>}
     /\ nForeign' = nForeign + 1
-    /\ UNCHANGED <<cursor, vvars, hvars, nPub, nImp, nAck, nReset, crashes>>
+    /\ UNCHANGED <<cursor, vvars, hvars, nPub, nPrune, nImp, nAck, nReset, crashes>>
 
 ---------------------------------------------------------------------------
 (* Stream task (stream.rs:145-300, replay.rs:47-114)                       *)
@@ -214,17 +220,24 @@ TakePublished ==
 TakeImported(r, s) ==
     /\ up /\ st.pc = "idle"
     /\ r \in Remotes /\ s \in 0..(Len(RemoteBodies) - 1)
-    /\ s <= Height(stored, r, T) + 1
-    /\ st' = [st EXCEPT !.pc = "taken", !.op = MkOp(r, T, s, RemoteBodies[s + 1]), !.src = "imp"]
+    \* the next operation of the log, or one that is stored already (a pruned one would fail ingest)
+    /\ \/ s = Height(stored, r, T) + 1
+       \/ \E o \in LogOps(stored, r, T) : o.seq = s
+    /\ st' = [st EXCEPT !.pc = "taken", !.op = MkOpP(r, T, s, RemoteBodies[s + 1], RemotePrunes[s + 1]), !.src = "imp"]
     /\ nImp' = nImp + 1
-    /\ UNCHANGED <<pvars, up, policy, pub, pubq, rq, ackLock, txHolder, chan, app, hvars, nPub, nAck, nForeign, nReset, crashes>>
+    /\ UNCHANGED <<pvars, up, policy, pub, pubq, rq, ackLock, txHolder, chan, app, hvars, nPub, nPrune, nAck, nForeign, nReset, crashes>>
 
 \* pipeline.process (stream.rs:348, 438): ingest = insert + associate in one transaction unless
 \* the operation exists already (p2panda-stream ingest/operation.rs:38-89).
 \*                   [*.before_process / process_operation.start -> *.processed]
+\* then log_prune (processor/event.rs:55-66, p2panda-store prune_entries: DELETE seq_num < until)
+\* for an operation with the prune flag, also when ingest said "exists already".
 PipelineProcess ==
     /\ up /\ st.pc = "taken" /\ txHolder = "none"
-    /\ stored' = stored \cup {st.op}
+    /\ stored' = LET S == stored \cup {st.op} IN
+                 IF st.op.prune
+                 THEN S \ {o \in S : o.a = st.op.a /\ o.tp = st.op.tp /\ o.seq < st.op.seq}
+                 ELSE S
     /\ assoc' = assoc \cup {<<T, st.op.a>>}
     /\ st' = [st EXCEPT !.pc = "processed"]
     /\ UNCHANGED <<cursor, up, policy, pub, pubq, rq, ackLock, txHolder, chan, app, hvars, bvars>>
@@ -309,7 +322,7 @@ AppAckBegin(o) ==
             /\ ackLock' = "app"                                                   \* [-> acked.ack.after_read]
             /\ app' = [pc |-> "ackread", op |-> o, rd |-> Advance(cursor, o.a, o.seq)]
     /\ UNCHANGED <<pvars, up, policy, pub, pubq, st, rq, txHolder, chan, expect, replayed, sent, base, ackd,
-                   nPub, nImp, nForeign, nReset, crashes>>
+                   nPub, nPrune, nImp, nForeign, nReset, crashes>>
 
 AppAckWriteTx ==
     /\ up /\ app.pc = "ackread" /\ txHolder = "none"
@@ -338,7 +351,7 @@ Crash ==
     /\ expect' = {} /\ replayed' = {} /\ sent' = {}
     /\ lastRes' = "none"
     /\ crashes' = crashes + 1
-    /\ UNCHANGED <<pvars, policy, base, ackd, nPub, nImp, nAck, nForeign, nReset>>
+    /\ UNCHANGED <<pvars, policy, base, ackd, nPub, nPrune, nImp, nAck, nForeign, nReset>>
 
 ---------------------------------------------------------------------------
 ResetStep ==
@@ -348,7 +361,7 @@ ResetStep ==
 Next ==
     \/ \E p \in Policies : Open(p)
     \/ ResetStep
-    \/ ForgeBegin \/ ForgeCommit \/ Enqueue \/ ForgeForeign
+    \/ (\E pr \in BOOLEAN, b \in BOOLEAN : ForgeBegin(pr, b)) \/ ForgeCommit \/ Enqueue \/ ForgeForeign
     \/ TakePublished
     \/ \E r \in Remotes, s \in 0..(Len(RemoteBodies) - 1) : TakeImported(r, s)
     \/ PipelineProcess \/ SkipAck \/ AckRead \/ AckWriteTx \/ AckCommit \/ Deliver \/ ReplayEnd
@@ -403,7 +416,7 @@ NeverForgotten ==
 \* the transcribed mechanism (ranges -> entries) agrees with the declarative set at open time
 ReplayQueueCoversExpect ==
     (up /\ st.ctx = "replay") =>
-        {rq[i] : i \in 1..Len(rq)} \cap {o \in stored : o.body} = expect \ replayed
+        {o \in {rq[i] : i \in 1..Len(rq)} : o.body} = expect \ replayed
 
 TypeOK ==
     /\ up \in BOOLEAN
@@ -426,7 +439,12 @@ LocksConsistent ==
 \* insert and topic association are one transaction: never one without the other
 StoredIsAssociated == \A o \in stored : <<o.tp, o.a>> \in assoc
 
-\* logs have no gaps (forge and in-order ingest)
+\* logs have no gaps above their pruned prefix (forge and in-order ingest)
+LowSeq(a, tp) == CHOOSE x \in {o.seq : o \in LogOps(stored, a, tp)} : \A o \in LogOps(stored, a, tp) : x <= o.seq
 LogsContiguous ==
-    \A o \in stored : \A s \in 0..o.seq : \E p \in stored : p.a = o.a /\ p.tp = o.tp /\ p.seq = s
+    \A o \in stored : \A s \in LowSeq(o.a, o.tp)..o.seq : \E p \in stored : p.a = o.a /\ p.tp = o.tp /\ p.seq = s
+
+\* a prefix is only ever removed below a stored operation that carries the prune flag
+PrunedOnlyBelowPruneOp ==
+    \A o \in stored : LowSeq(o.a, o.tp) > 0 => \E p \in LogOps(stored, o.a, o.tp) : p.prune /\ p.seq = LowSeq(o.a, o.tp)
 =============================================================================
